@@ -27,6 +27,10 @@ pub enum Zone {
     /// accepting or rejecting are both fine, but an accepted framework must be this one
     /// (undecodable bytes confined to comment lines: the rest of the file must not be dropped)
     Either(Expected),
+    /// accepting or rejecting are both fine, but an accepted framework must contain at least these
+    /// declarations (a file with an undecodable line: the well-formed declarations of its other
+    /// lines must not be silently dropped)
+    AtLeast(Expected),
 }
 
 fn split_lines(s: &str) -> Vec<&str> {
@@ -63,6 +67,7 @@ pub fn classify_iccma(bytes: &[u8]) -> Zone {
         Err(_) => {
             // undecodable bytes only inside comment lines: blank those comments and classify the rest
             let mut cleaned: Vec<u8> = vec![];
+            let mut outside = false;
             for (i, line) in bytes.split(|b| *b == b'\n').enumerate() {
                 if i > 0 {
                     cleaned.push(b'\n');
@@ -72,22 +77,28 @@ pub fn classify_iccma(bytes: &[u8]) -> Zone {
                 } else if line.first() == Some(&b'#') {
                     cleaned.push(b'#');
                 } else {
-                    return Zone::Unspecified("not UTF-8 outside comments");
+                    // an undecodable content line: drop it and require the rest not to be lost
+                    if cleaned.last() == Some(&b'\n') {
+                        cleaned.pop();
+                    }
+                    outside = true;
                 }
             }
-            return match classify_iccma(&cleaned) {
-                Zone::Accept(e) => Zone::Either(e),
+            return match (classify_iccma(&cleaned), outside) {
+                (Zone::Accept(e), false) => Zone::Either(e),
+                (Zone::Accept(e), true) => Zone::AtLeast(e),
                 _ => Zone::Unspecified("not UTF-8"),
             };
         }
     };
     let mut n: Option<u64> = None;
     let mut blank_seen = false;
+    let mut comment_after_blank = false;
     let mut attacks = vec![];
     for line in split_lines(s) {
         if line.starts_with('#') {
             if blank_seen {
-                return Zone::Unspecified("comment after a blank line");
+                comment_after_blank = true;
             }
             continue;
         }
@@ -150,6 +161,7 @@ pub fn classify_iccma(bytes: &[u8]) -> Zone {
     }
     match n {
         None => Zone::Reject("missing header"),
+        Some(_) if comment_after_blank => Zone::Unspecified("comment after a blank line"),
         Some(nn) => Zone::Accept(Expected { labels: (1..=nn).map(|i| i.to_string()).collect(), attacks }),
     }
 }
@@ -178,7 +190,16 @@ fn fact_names<'a>(line: &'a str, kw: &str) -> Option<Vec<&'a str>> {
 pub fn classify_apx(bytes: &[u8]) -> Zone {
     let s = match std::str::from_utf8(bytes) {
         Ok(s) => s,
-        Err(_) => return Zone::Unspecified("not UTF-8"),
+        Err(_) => {
+            // drop the undecodable lines; if the rest is a strict file, an accepting reader must not
+            // lose its declarations
+            let kept: Vec<&[u8]> = bytes.split(|b| *b == b'\n').filter(|l| std::str::from_utf8(l).is_ok()).collect();
+            let cleaned = kept.join(&b'\n');
+            return match classify_apx(&cleaned) {
+                Zone::Accept(e) => Zone::AtLeast(e),
+                _ => Zone::Unspecified("not UTF-8"),
+            };
+        }
     };
     let mut labels: Vec<String> = vec![];
     let mut attacks: Vec<(usize, usize)> = vec![];
@@ -239,7 +260,7 @@ impl Format {
 }
 
 /// internal consistency of whatever a reader returned + faithfulness in the accept zone
-fn check_result<T: LabelType>(af: &AAFramework<T>, exp: Option<&Expected>, multiset: bool) -> Result<(), String> {
+fn check_result<T: LabelType>(af: &AAFramework<T>, exp: Option<&Expected>, multiset: bool, at_least: bool) -> Result<(), String> {
     let n = af.n_arguments();
     let args: Vec<(String, usize)> = af.argument_set().iter().map(|a| (a.label().to_string(), a.id())).collect();
     if args.len() != n {
@@ -253,6 +274,22 @@ fn check_result<T: LabelType>(af: &AAFramework<T>, exp: Option<&Expected>, multi
     }
     if atts.len() != af.n_attacks() {
         return Err(format!("n_attacks() = {} but iter_attacks() yields {}", af.n_attacks(), atts.len()));
+    }
+    if let (Some(e), true) = (exp, at_least) {
+        let got_labels: Vec<String> = args.iter().map(|a| a.0.clone()).collect();
+        for l in &e.labels {
+            if !got_labels.contains(l) {
+                return Err(format!("accepted, but the declared argument {} of a well-formed line is missing (arguments {:?})", l, got_labels));
+            }
+        }
+        for &(a, b) in &e.attacks {
+            let fa = got_labels.iter().position(|x| x == &e.labels[a]).unwrap();
+            let fb = got_labels.iter().position(|x| x == &e.labels[b]).unwrap();
+            if !atts.contains(&(fa, fb)) {
+                return Err(format!("accepted, but the attack {}->{} declared on a well-formed line is missing", e.labels[a], e.labels[b]));
+            }
+        }
+        return Ok(());
     }
     if let Some(e) = exp {
         let got_labels: Vec<String> = args.iter().map(|a| a.0.clone()).collect();
@@ -286,17 +323,18 @@ pub fn check_input(fmt: Format, bytes: &[u8], probe_tokens: &[&str]) -> Result<(
         Format::Apx => classify_apx(bytes),
     };
     let exp = match &zone {
-        Zone::Accept(e) | Zone::Either(e) => Some(e.clone()),
+        Zone::Accept(e) | Zone::Either(e) | Zone::AtLeast(e) => Some(e.clone()),
         _ => None,
     };
+    let at_least = matches!(zone, Zone::AtLeast(_));
     let res: Result<Result<bool, String>, String> = catch(|| match fmt {
         Format::Iccma => {
             let rd = Iccma23Reader::default();
             let mut b = bytes;
             match rd.read(&mut b) {
                 Ok(af) => {
-                    check_result(&af, exp.as_ref(), true)?;
-                    if let Some(e) = &exp {
+                    check_result(&af, exp.as_ref(), true, at_least)?;
+                    if let (Some(e), false) = (&exp, at_least) {
                         for t in probe_tokens {
                             let ok = rd.read_arg_from_str(&af, t).map(|a| a.label().to_string());
                             let want = crate::checks::c13::plain_number_pub(t).filter(|v| *v >= 1 && (*v as usize) <= e.labels.len());
@@ -324,8 +362,8 @@ pub fn check_input(fmt: Format, bytes: &[u8], probe_tokens: &[&str]) -> Result<(
             let mut b = bytes;
             match rd.read(&mut b) {
                 Ok(af) => {
-                    check_result(&af, exp.as_ref(), false)?;
-                    if let Some(e) = &exp {
+                    check_result(&af, exp.as_ref(), false, at_least)?;
+                    if let (Some(e), false) = (&exp, at_least) {
                         for t in probe_tokens {
                             let ok = rd.read_arg_from_str(&af, t).is_ok();
                             let want = e.labels.iter().any(|l| l == t);
@@ -342,7 +380,7 @@ pub fn check_input(fmt: Format, bytes: &[u8], probe_tokens: &[&str]) -> Result<(
     });
     match res {
         Err(p) => Err(("panic".into(), format!("reader panicked: {}", p))),
-        Ok(Err(m)) => Err((if exp.is_some() { "unfaithful".into() } else { "inconsistent_result".into() }, m)),
+        Ok(Err(m)) => Err((if at_least { "declarations_dropped".into() } else if exp.is_some() { "unfaithful".into() } else { "inconsistent_result".into() }, m)),
         Ok(Ok(accepted)) => match zone {
             Zone::Accept(_) => {
                 if accepted {
@@ -358,7 +396,7 @@ pub fn check_input(fmt: Format, bytes: &[u8], probe_tokens: &[&str]) -> Result<(
                     Ok((1, false))
                 }
             }
-            Zone::Unspecified(_) | Zone::Either(_) => Ok((2, accepted)),
+            Zone::Unspecified(_) | Zone::Either(_) | Zone::AtLeast(_) => Ok((2, accepted)),
         },
     }
 }
